@@ -141,6 +141,11 @@ theorem stopCall_jk (cfg : Cfg) (s : St) (err : Option GErr) (user : Bool) : JK 
   · exact hx
   · exact hx
 
+theorem userStop_jk (cfg : Cfg) (s : St) : JK s (userStop cfg s) := by
+  rcases userStop_cases cfg s with ⟨hu, _, _⟩ | hu <;> rw [hu]
+  · exact JK_frame rfl
+  · exact stopCall_jk _ _ _ _
+
 theorem rejoinAfterError_jk (cfg : Cfg) (s : St) (e : GErr) : JK s (rejoinAfterError cfg s e) := by
   unfold rejoinAfterError
   simp only []
@@ -182,7 +187,7 @@ theorem step_leave_wait {s : St} (h : SInv s) (cfg : Cfg) (e : Ev) (hx : xj s = 
     right; revert hx'; simp only [step]; split
     · intro hx'; exact (same rfl hx').elim
     · exact viaJK (joinAndSync_jk (s := { s with started := true, startResult := none }) hri) rfl
-  | stop => right; exact viaJK (stopCall_jk cfg s none true) rfl hx'
+  | stop => right; exact viaJK (userStop_jk cfg s) rfl hx'
   | coordDone r =>
     exfalso; revert hx'; simp only [step]; split
     · intro hx'; exact same rfl hx'
